@@ -80,4 +80,12 @@ CHECKS = {
         "quick": [B("c10", what="16-byte buffer, <= 2 frames of 16 shapes, all kernel answers, fixpoint")],
         "thorough": [B("c10", what="16-byte buffer <= 3 frames; 5120-byte buffer boundary shapes; cross-checks", deadline=1800)],
     },
+    "C13": {
+        "level": "model_checking",
+        "text": "A valid upgrade request is truncated after every byte count (then FIN, then reset), corrupted at every byte with 6 replacement bytes, and 30 request variants (wrong path/method/version, malformed line or header, over-long lines 511..2000 bytes) are sent to the real daemon's HTTP listener; thorough additionally delivers every case split at every byte position (segmentation deviation budget 1, ~250k executions). A classifier for the statement's enumerated senses requires 'never 101' for clearly invalid requests and 101 for the untouched request; every exchange must end with the connection released, the peer count, heap, descriptors at baseline, a bystander still served, and a clean SIGTERM shutdown under ASan and the descriptor monitor (this is how a stale peer would be 'later reached').",
+        "note": "Trusted: simk, the classifier (request line, truncation and listed variants only; corrupted header bytes are judged by the resource/shutdown oracle alone).",
+        "technique": "stateless model checking of the implementation: exhaustive enumeration of truncations, single-byte corruptions and request variants x all single split points",
+        "quick": [A("c13", budget=0, what="all truncations/corruptions/variants, one chunk")],
+        "thorough": [A("c13", budget=1, what="same, each under every single split point", deadline=1500)],
+    },
 }
